@@ -407,7 +407,10 @@ func walkAggregation(expr string, n *promParser.AggregateExpr) (src []Source) {
 			// Param is the label to store the count value in.
 			s = includeLabel(s, n.Param.(*promParser.StringLiteral).Val)
 			s = guaranteeLabel(s, n.Param.(*promParser.StringLiteral).Val)
-			s = excludeMetricName(s, n)
+			if n.Without || n.Param.(*promParser.StringLiteral).Val != labels.MetricName {
+				// count_values("__name__", ...) by(...) stores the value in the metric name.
+				s = excludeMetricName(s, n)
+			}
 			src = append(src, s)
 		}
 	case promParser.QUANTILE:
